@@ -342,6 +342,63 @@ def setLifecycleHeaders (cfg : Cfg) (version : Bytes) : Hdrs × Bool :=
       ({ h with deprecation := some (vb!"true"), sunset := lc.sunset.map (·.2.1), link := link, warning := warning },
        false)
 
+/-! ### lifecycle options and the objects they are applied to (`version/lifecycle.go`, `Router.Version`, `VersionRouter.Configure`) -/
+
+/-- `version.Deprecated()`, `DeprecatedSince(t)`, `Sunset(t)`, `MigrationDocs(url)`, `SuccessorVersion(v)` -/
+inductive LOpt where
+  | deprecated
+  /-- also sets `Deprecated` -/
+  | deprecatedSince
+  | sunset (s : Nat × Bytes × Bytes)
+  | migration (u : Bytes)
+  /-- reaches no response -/
+  | successor
+  deriving Repr, DecidableEq
+
+def LC.zero : LC := { deprecated := false, sunset := Option.none, migration := [] }
+
+def applyLOpt (lc : LC) : LOpt → LC
+  | .deprecated => { lc with deprecated := true }
+  | .deprecatedSince => { lc with deprecated := true }
+  | .sunset s => { lc with sunset := some s }
+  | .migration u => { lc with migration := u }
+  | .successor => lc
+
+/-- a configuration statement: `vr<id> := r.Version(ver, opts…)` / `vr<id>.Configure(opts…)` -/
+inductive LOp where
+  | version (id : Nat) (ver : Bytes) (opts : List LOpt)
+  | configure (id : Nat) (opts : List LOpt)
+  deriving Repr, DecidableEq
+
+structure LSt where
+  /-- the `VersionRouter` objects: id ↦ (version, its `lifecycle` pointer target; `none` = nil), newest binding first -/
+  vrs : List (Nat × Bytes × Option LC)
+  /-- the `SetLifecycle(ver, vr.lifecycle)` calls in order: the engine holds the POINTER, i.e. the object of that `vr` -/
+  engine : List (Bytes × Nat)
+  deriving Repr, DecidableEq
+
+def LSt.step (s : LSt) : LOp → LSt
+  | .version id ver opts =>
+    -- `Router.Version`: a fresh object; options (if any) are applied to a fresh config, which is registered
+    if opts = [] then { s with vrs := (id, ver, Option.none) :: s.vrs }
+    else { vrs := (id, ver, some (opts.foldl applyLOpt LC.zero)) :: s.vrs, engine := s.engine ++ [(ver, id)] }
+  | .configure id opts =>
+    -- `VersionRouter.Configure`: nothing without options; else the options are applied to THIS object's config (a new one
+    -- if it had none) and the object is registered (again), replacing whatever another object registered for the version
+    if opts = [] then s
+    else match s.vrs.lookup id with
+      | Option.none => s
+      | some (ver, lc) =>
+        { vrs := (id, ver, some (opts.foldl applyLOpt (lc.getD LC.zero))) :: s.vrs, engine := s.engine ++ [(ver, id)] }
+
+/-- the `SetLifecycle` history with what each registered object holds when requests are served -/
+def lifecyclesOf (ops : List LOp) : List (Bytes × LC) :=
+  let s := ops.foldl LSt.step { vrs := [], engine := [] }
+  s.engine.filterMap fun (ver, id) =>
+    match s.vrs.lookup id with
+    | some (_, some lc) => some (ver, lc)
+    | _ => Option.none
+
 /-! ### trees -/
 
 /-- the static paths registered for (tree, method), in registration order -/
